@@ -128,7 +128,7 @@ pub fn run_corners(rep: &mut Report, runner: &mut Runner, property: &str) {
                 }
                 let idx = runner.run_here(&cfg, &p.cmds, vec![format!("corner|{label}|{mode}")], &format!("corner scenario {label} ({mode}, trailing={trailing})"));
                 rep.count("corner-scenarios");
-                if mode != "verify" && runner.cases[idx].imp.verdict != "ok" {
+                if mode != "verify" && runner.cases[idx].imp.verdict != "ok" && !p.expect_error {
                     rep.notes.push(format!("corner scenario {label} ({mode}) ends `{}`: only the verdict is compared there", runner.cases[idx].imp.verdict));
                 }
                 // (a source that reads its own output is not idempotent - the side condition of the C08 theorems excludes it)
@@ -584,8 +584,6 @@ pub fn run_c16(args: &Args) -> Report {
         let mut cfg = RunCfg::build_all();
         cfg.trailing = trailing;
         cfg.threads = 1 + rng.below(3);
-        let idx = runner.run_here(&cfg, &p.cmds, vec![format!("{kind}|n={}|crlf={crlf}|fnl={final_nl}|tr={trailing}|tag={with_tag}", lines.len().min(4))], &format!("{kind} #{i}"));
-        let c = &runner.cases[idx];
         // expected bytes, computed from the input text directly
         let core = if le_eff == le { expected_core.clone() } else { expected_core.replace(le, le_eff) };
         let mut expected = core.into_bytes();
@@ -593,6 +591,30 @@ pub fn run_c16(args: &Args) -> Report {
         if trailing && nonempty {
             expected.extend_from_slice(le_eff.as_bytes());
         }
+        // a history: an earlier run left the same text with the other line ending, or with / without the final line
+        // ending; the only-if-needed rebuild has to bring the output to the bytes of the source as it is now
+        let mut hist = "fresh";
+        if rng.chance(1, 3) {
+            let text = String::from_utf8_lossy(&expected).to_string();
+            let old: Vec<u8> = match rng.below(3) {
+                0 => {
+                    hist = "other-line-ending";
+                    if le_eff == "\n" { text.replace('\n', "\r\n").into_bytes() } else { text.replace("\r\n", "\n").into_bytes() }
+                }
+                1 => {
+                    hist = "final-line-ending-flipped";
+                    if text.ends_with(le_eff) { text[..text.len() - le_eff.len()].as_bytes().to_vec() } else { format!("{text}{le_eff}").into_bytes() }
+                }
+                _ => {
+                    hist = "same-bytes";
+                    expected.clone()
+                }
+            };
+            let _ = std::fs::write(runner.dir.join("a.txt"), &old);
+            cfg.mode = "needed";
+        }
+        let idx = runner.run_here(&cfg, &p.cmds, vec![format!("{kind}|n={}|crlf={crlf}|fnl={final_nl}|tr={trailing}|tag={with_tag}|{hist}", lines.len().min(4))], &format!("{kind} #{i} ({hist})"));
+        let c = &runner.cases[idx];
         let got = c.imp.after.files.get("a.txt");
         if c.imp.verdict != "ok" || got != Some(&expected) {
             let what = format!(
